@@ -254,7 +254,8 @@ int Simulate8008::execute_instruction(uint8_t opcode)
 
   uint8_t s = opcode & 0x7;
   uint8_t d = (opcode >> 3) & 0x7;
-  int m = (reg[5] << 8) | reg[6];
+  // The 8008 has 14 address lines: the upper two bits of H are not used.
+  int m = ((reg[5] & 0x3f) << 8) | reg[6];
 
   uint8_t upper = opcode >> 6;
   uint8_t operation = (opcode >> 3) & 7;
